@@ -389,3 +389,75 @@ def mbox_bytes(raws: list[bytes], eol: bytes, mode: str, rng=None) -> bytes:
             body += b"\n"
         out += (sep + b"\n" + body + b"\n").replace(b"\n", eol)
     return out
+
+
+# ------------------------------------------------------------------------------------------ degenerate attachments
+TINY_PAYLOADS = [b"", b"", b"", b" ", b"\n", b"\r\n", b" \t \n", b"\0", b"a", b"ab", b"abc", b"\xff", b"\n\n", b"=", b"0"]
+
+
+def _raw_attachment_part(mt: str, data: bytes, cte: str, fn):
+    """An attachment part written by hand so that the payload is exactly `data` (the str-based stdlib API appends a
+    line end to text; zero-length and white-space-only payloads need the raw route)."""
+    import base64
+    import quopri
+    p = MIMEBase(*mt.split("/", 1))
+    if cte == "base64":
+        p.set_payload(base64.encodebytes(data).decode("ascii"))
+    elif cte == "quoted-printable":
+        p.set_payload(quopri.encodestring(data, quotetabs=True).decode("ascii"))
+    else:
+        p.set_payload(data.decode("ascii"))
+    p["Content-Transfer-Encoding"] = cte
+    if fn is None:
+        p.add_header("Content-Disposition", "attachment")
+    else:
+        p.add_header("Content-Disposition", "attachment", filename=fn)
+    return p
+
+
+def tiny_attachment_message(rng):
+    """(spec, raw): 1-4 attachments, at least one of them degenerate (zero bytes, white space only, one newline, NUL, 1-3
+    bytes), in base64 / quoted-printable / 7bit, with and without file name, first / middle / last.  None when the stdlib
+    parser does not give the payloads back (then the bytes do not encode the spec)."""
+    import email
+    k = rng.randrange(1, 5)
+    pos = rng.randrange(k)
+    atts, parts = [], []
+    for i in range(k):
+        if i == pos or rng.random() < 0.4:
+            data = pick(rng, TINY_PAYLOADS)
+        else:
+            data = ("ordinary file %d\nline two\n" % i).encode("ascii")
+        mt = pick(rng, ["text/plain", "application/octet-stream", "text/csv", "application/pdf", "application/json"])
+        seven_ok = all(c in b" \t" or 32 < c < 127 for c in data)   # no line ends: they change with the file's line-end convention
+        cte = pick(rng, ["base64", "quoted-printable", "7bit"] if seven_ok else ["base64", "quoted-printable"])
+        if cte == "quoted-printable" and (b"\r" in data or b"\n" in data):
+            cte = "base64"                       # quopri treats line ends as text line ends
+        ext = {"text/plain": "txt", "text/csv": "csv", "application/pdf": "pdf", "application/json": "json"}.get(mt, "bin")
+        fn = None if rng.random() < 0.2 else f"file{i}-{len(data)}.{ext}"
+        atts.append((fn, mt, data))
+        parts.append(_raw_attachment_part(mt, data, cte, fn))
+    tz = datetime.timezone(datetime.timedelta(minutes=pick(rng, ZONES)))
+    spec = {
+        "subject": "attachments %d" % rng.randrange(10 ** 6), "from": ("Bob", "bob@example.com"), "to": [("Jane Smith", "jane@x.test")], "cc": [],
+        "date": datetime.datetime(2024, rng.randrange(1, 13), rng.randrange(1, 29), 12, 0, rng.randrange(60), tzinfo=tz),
+        "msgid": f"<tiny.{rng.randrange(10 ** 9)}@x.test>", "plain": "see the files", "html": None, "layout": "plain",
+        "attachments": atts, "charset": "utf-8", "family": None, "cte": None, "api": "legacy-raw", "hdr_enc": None, "refold": None,
+        "att_name_style": "raw", "tiny": True,
+    }
+    root = MIMEMultipart("mixed")
+    root.attach(MIMEText(spec["plain"], "plain", "us-ascii"))
+    for p in parts:
+        root.attach(p)
+    root["Subject"] = spec["subject"]
+    root["From"] = email.utils.formataddr(spec["from"])
+    root["To"] = email.utils.formataddr(spec["to"][0])
+    root["Date"] = email.utils.format_datetime(spec["date"])
+    root["Message-ID"] = spec["msgid"]
+    raw = root.as_bytes().replace(b"\r\n", b"\n")
+    back = email.message_from_bytes(raw)
+    got = [(p.get_filename(), p.get_content_type(), p.get_payload(decode=True)) for p in back.walk()
+           if "attachment" in str(p.get("Content-Disposition", ""))]
+    if got != atts:
+        return None
+    return spec, raw
